@@ -68,6 +68,7 @@ EXHAUSTIVE = {"quick": False, "thorough": False}
 PROFILE = {
     "p_frozen": 1.0,
     "p_nested_frozen": 0.3,
+    "p_frozen_by_subclass": 0.2,
     "p_class_dnc": 0.0,
     "p_attr_dnc": 0.12,
     "p_inplace": 0.3,
@@ -75,7 +76,7 @@ PROFILE = {
     "p_bad": 0.12,
     "p_raw": 0.0,
     "n_ops": (5, 13),
-    "w": {"nested_set": 0, "alias": 0, "undeclared": 1.5, "set": 2, "del": 2, "copy": 2, "reset": 2, "resetattr": 3},
+    "w": {"nested_set": 0, "alias": 0, "undeclared": 1.5, "set": 2, "del": 2, "copy": 2, "reset": 2, "resetattr": 3, "nested_probe": 2},
 }
 
 
@@ -186,8 +187,7 @@ def oracle(case):
                 violations.append(f"initialisation marker left in a frozen instance after `{what}`")
 
     def on_op(world, dst, toks, run):
-        counter["k"] += 1
-        idx = line_of_op[counter["k"]] if counter["k"] < len(line_of_op) else -1
+        idx = world.line_index  # (unresolvable `op` lines never reach this hook: no counting)
         track(world)
         ip = H.op_inplace(toks)
         recv = None
